@@ -6,7 +6,9 @@ from typing import Any, Callable, Dict, List, Optional, Tuple, Union, Type
 
 import regex
 
-from .types import Artifact, RegexMatch
+from calendar import monthrange
+
+from .types import Artifact, Interval, RegexMatch, Time, pod_hours
 
 logger = logging.getLogger(__name__)
 
@@ -50,6 +52,25 @@ _defines = (
     regex_month=_regex_month,
     regex_year=_regex_year,
 )
+
+
+def _denotes_something(a: Artifact) -> bool:
+    """False if *a* is a Time (or an Interval with an end) that cannot exist: a
+    day the month does not have (31.04., 30.02., 29.02.2019) or a part of day
+    that is not in `pod_hours`."""
+    if isinstance(a, Interval):
+        return all(_denotes_something(t) for t in (a.t_from, a.t_to) if t is not None)
+    if isinstance(a, Time):
+        if a.POD is not None and a.POD not in pod_hours:
+            return False
+        if a.year is not None and not 1 <= a.year <= 9999:
+            return False
+        if a.month is not None and a.day is not None:
+            # without a year the day only has to exist in some year (29.02.)
+            year = a.year if a.year is not None else 2000
+            if a.day > monthrange(year, a.month)[1]:
+                return False
+    return True
 
 
 def rule(*patterns: Union[str, Predicate]) -> Callable[[Any], ProductionRule]:
@@ -100,6 +121,9 @@ def rule(*patterns: Union[str, Predicate]) -> Callable[[Any], ProductionRule]:
     def fwrapper(f: ProductionRule) -> ProductionRule:
         def wrapper(ts: datetime, *args: Artifact) -> Optional[Artifact]:
             res = f(ts, *args)
+            if res is not None and not _denotes_something(res):
+                # the production matched but what it built does not exist
+                return None
             if res is not None:
                 # upon a successful production, update the span
                 # information by expanding it to that of all args
